@@ -52,7 +52,7 @@ def final_inputs(cp):
     return out
 
 
-def run_solver(classes, cp, request, field_names=(), answer=None, schedule_seed=None, tracer=None, use_prompt=True, sort_key=None):
+def run_solver(classes, cp, request, field_names=(), answer=None, schedule_seed=None, tracer=None, use_prompt=True, sort_key=None, then_request=None):
     """answer(input_obj, needed_by) -> text or None (refuse)."""
     store = I.InputStore(cp)          # cp: a ConfigParser, or the path of an input file (as the CLI passes it)
     if isinstance(cp, str):
@@ -81,6 +81,11 @@ def run_solver(classes, cp, request, field_names=(), answer=None, schedule_seed=
     try:
         try:
             out.ret = s.solve(list(request), field_names=list(field_names))
+            if then_request:
+                # a second call on the same Solver asking for more forms (the API works incrementally)
+                out.first_ret = out.ret
+                out.ret = s.solve(list(then_request))
+                out.request = list(request) + [f for f in then_request if f not in request]
         except BaseException as e:  # noqa  (RecursionError, AssertionError, ...)
             if isinstance(e, (KeyboardInterrupt, SystemExit)):
                 raise
